@@ -350,6 +350,22 @@ class Exec:
             self._pending_raises = saved
         return outs
 
+    def st_With(self, st, pc, env):
+        """`with <expr> [as name]: body` as binding + body: __enter__ returns the object itself and __exit__ neither swallows
+        exceptions nor changes the state the body's code reads (files, locks) - stated per contract."""
+        live = [(pc, env)]
+        for item in st.items:
+            nxt = []
+            for p0, e0 in live:
+                for p2, e2, v in self.eval_fork(item.context_expr, p0, e0):
+                    e3 = self.assign(item.optional_vars, v, p2, e2) if item.optional_vars is not None else e2
+                    nxt.append((p2, e3))
+            live = nxt
+        outs: List[Outcome] = []
+        for p2, e2 in live:
+            outs.extend(self.exec_block(st.body, p2, copy.deepcopy(e2) if len(live) > 1 else e2))
+        return outs
+
     def st_Try(self, st, pc, env):
         """try/except[/else]: outcomes of the body that raise a matching exception continue in the handler.  Exceptions are the
         explicit `raise` statements and the raising alternatives of intrinsics (Raises); anything else that the real code
@@ -455,6 +471,8 @@ class Exec:
         if isinstance(target, ast.Name):
             env = dict(env)
             env[target.id] = v
+            if "__bound__" + target.id in env:
+                env["__bound__" + target.id] = True
             return env
         if isinstance(target, (ast.Tuple, ast.List)):
             if not isinstance(v, (tuple, list)) or len(v) != len(target.elts):
@@ -523,7 +541,7 @@ class Exec:
         ordinal = self._loop_ordinal
         self._loop_ordinal += 1
         it = self.eval(st.iter, pc, env)
-        spec = self.loop_specs.get(ordinal)
+        spec = self.loop_specs.get(ordinal) or self.loop_specs.get(("line", st.lineno))
         # concrete iteration: unroll
         if isinstance(it, (list, tuple, range)) and spec is None:
             live = [Outcome("fall", pc, env)]
@@ -570,7 +588,8 @@ class Exec:
                         # the raising alternative owns a copy of the state: the other alternatives go on mutating theirs
                         self._pending_raises.append(Outcome("raise", pc + [c], copy.deepcopy(env), None, x.exc))
                     else:
-                        res.append((pc + [c], env, x))
+                        # every further alternative owns a copy of the state (mutable lists / maps / sets are changed in place later)
+                        res.append((pc + [c], env if not res else copy.deepcopy(env), x))
                 return res
             if isinstance(v, Raises):
                 self._pending_raises.append(Outcome("raise", pc, env, None, v.exc))
@@ -581,7 +600,7 @@ class Exec:
             for c, thunk in f.branches:
                 p2 = pc + [c]
                 if self.feasible(p2):
-                    res.append((p2, env, thunk()))
+                    res.append((p2, env if not res else copy.deepcopy(env), thunk()))
             return res
 
     def eval(self, node, pc, env):
@@ -595,6 +614,11 @@ class Exec:
 
     def ex_Name(self, n, pc, env):
         if n.id in env:
+            b = env.get("__bound__" + n.id)
+            if b is not None and b is not True:
+                self.oblige(f"unbound@L{n.lineno}.{n.id}", pc, b, f"UnboundLocalError: `{n.id}` is assigned only inside a loop that may not execute its body")
+                env["__bound__" + n.id] = True  # obliged once on this path; later reads of the same binding do not repeat it
+                pc.append(to_z3(b))  # the path goes on only where the read succeeded (assert, then assume)
             return env[n.id]
         if n.id in self.consts:
             return self.consts[n.id]
@@ -618,6 +642,8 @@ class Exec:
         return set(self.eval(e, pc, env) for e in n.elts)
 
     def ex_Dict(self, n, pc, env):
+        if not n.keys and getattr(self, "empty_dict_factory", None) is not None:
+            return self.empty_dict_factory()
         d = {}
         for k, v in zip(n.keys, n.values):
             if k is None:
@@ -927,6 +953,7 @@ class Exec:
                 self.oblige(f"indexerror@L{ln}", pc, obj.length >= -idx, "IndexError absence")
                 return obj.at(obj.length + idx)
             self.oblige(f"indexerror@L{ln}", pc, z3.And(to_z3(idx) >= 0, to_z3(idx) < obj.length), "IndexError absence")
+            pc.append(z3.And(to_z3(idx) >= 0, to_z3(idx) < obj.length))  # assert, then assume: the path goes on where the lookup succeeded
             return obj.at(to_z3(idx))
         if isinstance(obj, SymMap):
             self.oblige(f"keyerror@L{ln}", pc, obj.has(idx), "KeyError absence")
@@ -1643,7 +1670,11 @@ class LoopSpec:
     """
 
     def __init__(self, state_vars: List[str], invariant: Callable, elem: Callable, length: Callable,
-                 fresh_like: Optional[Callable] = None, name: str = "loop", elem_assume: Optional[Callable] = None):
+                 fresh_like: Optional[Callable] = None, name: str = "loop", elem_assume: Optional[Callable] = None,
+                 allow_break: bool = False, unbound: Optional[Dict[str, Callable]] = None):
+        self.allow_break = allow_break  # a `break` leaves the loop with the state of that path (sound without further conditions)
+        self.unbound = unbound or {}  # state vars that may be unbound on entry: name -> factory of a fresh value of its type
+        self.entry_env: Dict[str, Any] = {}
         self.state_vars = state_vars
         self.invariant = invariant
         self.elem = elem
@@ -1652,21 +1683,31 @@ class LoopSpec:
         self.name = name
         self.elem_assume = elem_assume
 
-    def havoc(self, env):
+    def havoc(self, env, count=None):
         env = copy.deepcopy(env)
         for v in self.state_vars:
             if v in env:
+                if env.get("__bound__" + v, True) is not True:
+                    raise Unsupported(f"loop state variable {v} may already be unbound on entry")
                 env[v] = self.fresh_like(v, env[v])
+            elif v in self.unbound:
+                # not assigned before the loop: bound afterwards exactly when the body ran at least once
+                env[v] = self.unbound[v]()
+                env["__bound__" + v] = (count > 0) if count is not None else True
         return env
 
     def apply(self, ex: Exec, st: ast.For, it, pc, env, ordinal) -> List[Outcome]:
         n = self.length(it)
         tag = f"{self.name}#{ordinal}"
+        self.entry_env = env
         # base
-        ex.oblige(f"{tag}.inv_base", pc, self.invariant(env, z3.IntVal(0), it), "loop invariant holds on entry")
+        env0 = env
+        if any(v not in env for v in self.unbound):
+            env0 = self.havoc_unbound_only(env)
+        ex.oblige(f"{tag}.inv_base", pc, self.invariant(env0, z3.IntVal(0), it), "loop invariant holds on entry")
         # step
         k = fresh("k", z3.IntSort())
-        env_h = self.havoc(env)
+        env_h = self.havoc(env, k)
         pc_h = pc + [k >= 0, k < n, self.invariant(env_h, k, it)]
         x = self.elem(it, k)
         if self.elem_assume is not None:
@@ -1677,14 +1718,24 @@ class LoopSpec:
             if r.kind in ("fall", "continue"):
                 ex.oblige(f"{tag}.inv_step", r.pc, self.invariant(r.env, k + 1, it), "loop invariant preserved by the body")
             elif r.kind == "break":
-                raise Unsupported("break inside invariant loop")
+                if not self.allow_break:
+                    raise Unsupported("break inside invariant loop")
+                outs.append(Outcome("fall", r.pc, r.env))
             else:
                 outs.append(r)
         # exit
-        env_e = self.havoc(env)
+        env_e = self.havoc(env, n)
         pc_e = pc + [n >= 0, self.invariant(env_e, n, it)]
         outs.append(Outcome("fall", pc_e, env_e))
         return outs
+
+    def havoc_unbound_only(self, env):
+        env = dict(env)
+        for v, mk in self.unbound.items():
+            if v not in env:
+                env[v] = mk()
+                env["__bound__" + v] = False
+        return env
 
     def apply_while(self, ex: Exec, st: ast.While, pc, env, ordinal) -> List[Outcome]:
         raise Unsupported("while loops: use WhileSpec")
